@@ -66,6 +66,37 @@ func Graph(t *rapid.T) gmodel.Graph {
 	return g
 }
 
+// RankedGraph draws a graph for ranking queries (count per source, ORDER BY the count, LIMIT): three or four source
+// nodes that carry every kind, source i with i outgoing relationships of kind R and of kind S to terminals of its
+// own, so that the counts per source are pairwise different and a ranking is a total order.
+func RankedGraph(t *rapid.T) gmodel.Graph {
+	var g gmodel.Graph
+	id, eid := int64(0), int64(0)
+	// every node answers the usual anchors alike (flag = true, value = 4, one shared name), so that a WHERE on the
+	// source keeps all of them or none
+	shared := rapid.SampledFrom(names).Draw(t, "rname")
+	node := func() int64 {
+		id += int64(rapid.IntRange(1, 2).Draw(t, "ridgap"))
+		p := props(t)
+		p["name"], p["value"], p["flag"] = shared, int64(4), true
+		g.Nodes = append(g.Nodes, gmodel.Node{ID: id, Kinds: append([]string(nil), NodeKinds...), Props: p})
+		return id
+	}
+	sources := rapid.IntRange(3, 4).Draw(t, "rsources")
+	fan := rapid.Permutation([]int{1, 2, 3, 0}[:sources]).Draw(t, "rfan")
+	for i := 0; i < sources; i++ {
+		src := node()
+		for j := 0; j < fan[i]; j++ {
+			dst := node()
+			for _, k := range []string{"R", "S"} {
+				eid++
+				g.Edges = append(g.Edges, gmodel.Edge{ID: eid, Start: src, End: dst, Kind: k, Props: props(t)})
+			}
+		}
+	}
+	return g
+}
+
 func max2(a, b int) int {
 	if a > b {
 		return a
@@ -1270,8 +1301,8 @@ func (g *gen) loweringTemplate() string {
 	case 5: // aggregate traversal count
 		// the two WHEREs of the shape: none, a plain predicate, a pattern predicate, a quantifier over a list property
 		where := func(v, label string) string {
-			switch g.pick(label, 6) {
-			case 0:
+			switch g.pick(label, 8) {
+			case 0, 6, 7:
 				return ""
 			case 1:
 				return " where (" + v + ")-[:" + g.eks() + "]->()"
